@@ -29,6 +29,8 @@ struct Operand {
   std::unique_ptr<hll_sketch> sk;
   unsigned lg_k = 0; int type = 0; bool full = false;
   int mode = -1;                      // observed from the operand's own image
+  unsigned cur_min = 0;               // HLL_4 operands in HLL mode: cur_min field of the own image (coverage only)
+  unsigned min_reg = 0;               // smallest decoded register (HLL mode; > 0 means every slot was hit) (coverage only)
   bool empty() const { return coupons.empty(); }
   std::string desc;
 };
@@ -81,6 +83,15 @@ static void classify(Engine& E, const Operand& op, bool rvalue) {
     else if (E.any_offered && gm == HLL && op.lg_k < glgk) nf = 2;
   }
   E.fresh = nf;
+  // the source is folded into a smaller register array (mergeHll with src_k > dst_k)
+  const bool folded = op.mode == M_HLL && ((g_reports_empty || gm != HLL) ? op.lg_k > E.lg_max_k : op.lg_k > glgk);
+  if (folded) {
+    count(std::string("downsample_from_") + type_name(op.type) + "_operand");
+    if (op.min_reg > 0) count(std::string("downsample_from_dense_") + type_name(op.type) + "_operand");
+    if (op.type == 0 && op.cur_min > 0) count("downsample_from_hll4_operand_with_curmin_gt0");
+    if (op.type == 0 && op.cur_min > 0 && gm == HLL && !g_reports_empty) count("downsample_from_hll4_operand_with_curmin_gt0_into_hll_gadget");
+  }
+  if (op.mode == M_HLL && !folded && op.type == 0 && op.cur_min > 0) count("same_k_merge_from_hll4_operand_with_curmin_gt0");
   if (nf == 1) count("downsample_first_operand");
   if (nf == 2) count("downsample_later");
 }
@@ -203,18 +214,28 @@ void run_case(uint64_t idx, Rng& r) {
   const bool T = G().thorough();
   const unsigned LGMAX = T ? 21 : 13;
   unsigned lg_max_k = static_cast<unsigned>((T && r.chance(0.12)) ? r.range(14, 21) : r.range(4, 13));
-  const bool huge_case = lg_max_k >= 17;
   Cfg cfg; cfg.salt = r.next(); cfg.fixed_kind = r.chance(0.6) ? -1 : static_cast<int>(r.pick({int(V_U64), int(V_I64), int(V_F64), int(V_STR), int(V_BYTES), int(V_I32), int(V_F32)}));
   const size_t nops = static_cast<size_t>(r.range(2, 6));
   const bool scenario = r.chance(0.12) && lg_max_k < LGMAX;   // first operand must be down-sampled, second is HLL-mode
+  // dense scenario: an operand filled past ~k ln k (every slot hit, HLL_4 cur_min > 0) that must be folded down:
+  //   variant 1: its lg_k is above lg_max_k;  variant 2: another HLL-mode operand of smaller lg_k shrinks the gadget
+  const int dense_variant = (!scenario && r.chance(0.16)) ? 1 + static_cast<int>(r.below(2)) : 0;
+  size_t dense_at = nops, small_at = nops;
+  unsigned dense_lg_k = 0;
+  if (dense_variant == 1) { lg_max_k = static_cast<unsigned>(r.range(4, 8)); dense_lg_k = static_cast<unsigned>(std::min<int64_t>(10, lg_max_k + (r.chance(0.6) ? 1 : r.range(2, 3)))); dense_at = r.below(nops); }
+  if (dense_variant == 2) {
+    dense_lg_k = static_cast<unsigned>(r.range(5, 9)); lg_max_k = static_cast<unsigned>(r.range(dense_lg_k, 13));
+    dense_at = r.below(nops); small_at = (dense_at + 1 + r.below(nops - 1)) % nops;
+  }
   std::vector<Operand> ops(nops);
   uint64_t universe = 0;
-  bool any_big = huge_case;
+  bool any_big = lg_max_k >= 17;
   std::string cdesc = "lg_max_k=" + std::to_string(lg_max_k) + " ops=[";
   for (size_t i = 0; i < nops; ++i) {
     Operand& op = ops[i];
-    op.raw = !(scenario && i < 2) && r.chance(0.2);
+    op.raw = !(scenario && i < 2) && i != dense_at && i != small_at && r.chance(0.2);
     uint64_t cnt;
+    unsigned dense_target = 0;          // dense operands: feed until every slot holds at least this value (model), then a little more
     if (op.raw) {
       cnt = r.chance(0.5) ? r.below(12) : r.below(r.chance(0.2) ? 3000 : 300);
       op.desc = "raw";
@@ -225,11 +246,24 @@ void run_case(uint64_t idx, Rng& r) {
       else op.lg_k = static_cast<unsigned>((T && r.chance(0.1)) ? r.range(14, 21) : r.range(4, 13));
       op.type = static_cast<int>(r.below(3));
       op.full = r.chance(0.25);
-      const uint64_t k = 1ULL << op.lg_k;
-      const uint64_t thr = op.lg_k >= 8 ? (3 * (k >> 3)) / 4 : 8;     // used only to aim at a mode; the mode is then *observed*
+      uint64_t k = 1ULL << op.lg_k;
+      uint64_t thr = op.lg_k >= 8 ? (3 * (k >> 3)) / 4 : 8;     // used only to aim at a mode; the mode is then *observed*
       uint64_t want = r.below(100);
       if (scenario && i < 2) want = 99;
-      if (want < 8) cnt = 0;
+      bool dense = false;
+      if (i == dense_at) { op.lg_k = dense_lg_k; dense = true; }
+      else if (i == small_at) { op.lg_k = static_cast<unsigned>(r.chance(0.6) ? dense_lg_k - 1 : r.range(4, dense_lg_k - 1)); want = 99; }
+      else if (op.lg_k <= 8 && want >= 48 && r.chance(0.2)) dense = true;
+      if (dense) { op.full = r.chance(0.1); op.type = r.chance(0.5) ? 0 : static_cast<int>(1 + r.below(2)); }
+      k = 1ULL << op.lg_k; thr = op.lg_k >= 8 ? (3 * (k >> 3)) / 4 : 8;
+      if (dense) {
+        // n in [~k ln k, 40 k]: every slot hit, HLL_4 cur_min >= 1 (often 2..4)
+        const double base_n = static_cast<double>(k) * (std::log(static_cast<double>(k)) + 1.0 + static_cast<double>(r.below(8)));
+        cnt = std::min<uint64_t>(40 * k, static_cast<uint64_t>(base_n * (1.0 + r.unit())));
+        if (r.chance(0.7)) { dense_target = static_cast<unsigned>(1 + r.below(3)); cnt = 40 * k; }   // stop shortly after the slot minimum reaches the target (just after a cur-min shift)
+        count("dense_operands_built");
+      }
+      else if (want < 8) cnt = 0;
       else if (want < 28) cnt = 1 + r.below(7);
       else if (want < 48 && op.lg_k >= 8) cnt = 8 + r.below(thr > 9 ? thr - 8 : 1);
       else {
@@ -240,17 +274,37 @@ void run_case(uint64_t idx, Rng& r) {
       if (op.lg_k >= 17) any_big = true;
     }
     // items: a window of the shared universe (overlaps between operands are likely)
-    const uint64_t base = universe == 0 ? 0 : r.below(universe + 1);
+    // (a dense operand mostly gets a window of its own: otherwise the other operands re-supply its registers)
+    const uint64_t base = universe == 0 ? 0 : ((i == dense_at && r.chance(0.75)) ? universe : r.below(universe + 1));
     if (!op.raw) op.sk.reset(new hll_sketch(static_cast<uint8_t>(op.lg_k), tgt(op.type), op.full));
+    std::vector<uint8_t> dregs;
+    size_t below_target = 0;
+    if (dense_target) { dregs.assign(size_t(1) << op.lg_k, 0); below_target = dregs.size(); }
     for (uint64_t j = 0; j < cnt; ++j) {
       Val v = make_val(cfg, base + j);
-      if (!v.ignored()) op.coupons.push_back(coupon_of(v));
+      if (!v.ignored()) {
+        const uint32_t c = coupon_of(v);
+        op.coupons.push_back(c);
+        if (dense_target) {
+          uint8_t& rg = dregs[cp_slot(c, op.lg_k)];
+          const uint8_t nv = static_cast<uint8_t>(cp_value(c));
+          if (nv > rg) { if (rg < dense_target && nv >= dense_target) --below_target; rg = nv; }
+          if (below_target == 0) { cnt = std::min<uint64_t>(cnt, j + 1 + r.below((dregs.size() >> 2) + 1)); dense_target = 0; }
+        }
+      }
       if (op.raw) op.items.push_back(v); else apply_update(*op.sk, v);
     }
     universe = std::max<uint64_t>(universe, base + cnt);
     if (!op.raw) {
       Decoded d = read_native(*op.sk);
       op.mode = d.err.empty() ? d.mode : -1;
+      if (d.err.empty() && d.mode == M_HLL) {
+        op.cur_min = d.type == 0 ? d.cur_min : 0;
+        op.min_reg = d.regs.empty() ? 0 : *std::min_element(d.regs.begin(), d.regs.end());
+        if (op.type == 0 && op.cur_min > 0) count("operand_hll4_curmin_gt0");
+        if (op.type == 0 && op.cur_min > 1) count("operand_hll4_curmin_gt1");
+        if (op.min_reg > 0) count("operand_dense_all_slots_hit");
+      }
       op.desc = "lg" + std::to_string(op.lg_k) + "," + type_name(op.type) + (op.full ? "F" : "") + "," + mode_name(op.mode) + "," + std::to_string(cnt);
       count(std::string("operand_") + mode_name(op.mode) + (op.empty() ? "_empty" : ""));
       count(std::string("operand_") + type_name(op.type));
@@ -332,6 +386,7 @@ void run_case(uint64_t idx, Rng& r) {
   }
   count(std::string("lg_max_k_") + (lg_max_k < 8 ? "4_7" : (lg_max_k <= 13 ? "8_13" : "14_21")));
   if (scenario) count("scenario_cases");
+  if (dense_variant) count("dense_scenario_cases_v" + std::to_string(dense_variant));
   (void)idx;
 }
 
